@@ -1,3 +1,185 @@
 import FiberModel.DriverUtil
--- stub driver for C04; replaced when the property's model lands
-def main : IO Unit := pure ()
+import FiberModel.C04.Known
+/-
+Driver for C04. Case fields (after the id):
+  cfg(2 flags: caseSensitive, strict)  tree  ptable  reqs  |  stackMount stackGroup resMount resGroup
+(formats: see harness/cmd/c04/main.go). `Route(path)` blocks (`T:`) are read as a group with
+prefix `path` whose registrations all have the empty path — exactly what register.go's
+`Registering{path}` does (`Add` → `app.register(methods, r.path, …)`, `All` → `register([USE], r.path, …)`,
+`Route(p)` → `Registering{getGroupPath(r.path, p)}`).
+
+modelObs = model table of the mounted composition # model table of the group composition
+implObs  = Stack() of the mounted composition      # Stack() of the group composition
+spec     = both real compositions answer every request identically and their tables agree on what
+           the matcher reads (C04.specViolation), evaluated on the implementation's observation only.
+-/
+open B DriverUtil C04
+
+def parseNats (s : String) (dropSuffix : Bool) : Option (List Nat) :=
+  if s == "-" then some [] else
+  (s.splitOn ".").mapM fun p =>
+    let q := if dropSuffix then (p.dropEnd 1).toString else p
+    if dropSuffix && !(p.endsWith "n" || p.endsWith "s") then none else q.toNat?
+
+def flag (c : Char) : Option Bool := if c == '1' then some true else if c == '0' then some false else none
+
+/-- tokens → items; returns the rest after the matching `E` (depth > 0) -/
+partial def parseItems (toks : List String) (depth : Nat) (inReg : Bool) : Except String (List Item × List String) :=
+  match toks with
+  | [] => if depth == 0 then pure ([], []) else throw "outside-domain: missing E"
+  | t :: rest =>
+    if t == "E" then
+      if depth == 0 then throw "outside-domain: unbalanced E" else pure ([], rest)
+    else do
+      let f := t.splitOn ":"
+      let (item, rest') ← (match f with
+        | ["R", ms, p, hs] => do
+          if inReg then throw "outside-domain: R inside Route()"
+          let some ms := parseNats ms false | throw "outside-domain: methods"
+          let some p := fromHex p | throw "outside-domain: path"
+          let some hs := parseNats hs true | throw "outside-domain: handlers"
+          if ms.isEmpty || hs.isEmpty || ms.any (· ≥ nMethods) then throw "outside-domain: route needs methods < 9 and a handler"
+          pure (Item.route ms p hs, rest)
+        | ["A", ms, hs] => do
+          if !inReg then throw "outside-domain: A outside Route()"
+          let some ms := parseNats ms false | throw "outside-domain: methods"
+          let some hs := parseNats hs true | throw "outside-domain: handlers"
+          if ms.isEmpty || hs.isEmpty || ms.any (· ≥ nMethods) then throw "outside-domain: route needs methods < 9 and a handler"
+          pure (Item.route ms [] hs, rest)
+        | ["U", p, hs] => do
+          if inReg then throw "outside-domain: U inside Route()"
+          let some p := fromHex p | throw "outside-domain: path"
+          let some hs := parseNats hs true | throw "outside-domain: handlers"
+          if hs.isEmpty then throw "outside-domain: Use needs a handler"
+          pure (Item.use p hs, rest)
+        | ["L", hs] => do
+          if !inReg then throw "outside-domain: L outside Route()"
+          let some hs := parseNats hs true | throw "outside-domain: handlers"
+          if hs.isEmpty then throw "outside-domain: All needs a handler"
+          pure (Item.use [] hs, rest)
+        | ["G", p, hs] => do
+          if inReg then throw "outside-domain: G inside Route()"
+          let some p := fromHex p | throw "outside-domain: path"
+          let some hs := parseNats hs true | throw "outside-domain: handlers"
+          let (inner, r) ← parseItems rest (depth + 1) false
+          pure (Item.group p hs inner, r)
+        | ["T", p] => do
+          let some p := fromHex p | throw "outside-domain: path"
+          let (inner, r) ← parseItems rest (depth + 1) true
+          pure (Item.group p [] inner, r)
+        | ["M", p, fl] => do
+          if inReg then throw "outside-domain: M inside Route()"
+          let some p := fromHex p | throw "outside-domain: path"
+          match fl.toList with
+          | [a, b, c] =>
+            let some cs := flag a | throw "outside-domain: flags"
+            let some st := flag b | throw "outside-domain: flags"
+            let some _ := flag c | throw "outside-domain: flags"
+            let (inner, r) ← parseItems rest (depth + 1) false
+            pure (Item.mount p ⟨cs, st⟩ inner, r)
+          | _ => throw "outside-domain: flags"
+        | _ => throw s!"outside-domain: token {t}")
+      let (more, rest'') ← parseItems rest' depth inReg
+      pure (item :: more, rest'')
+
+def parseTree (s : String) : Except String (List Item) := do
+  if s == "-" then return []
+  let (items, rest) ← parseItems (s.splitOn ",") 0 false
+  if !rest.isEmpty then throw "outside-domain: trailing tokens"
+  pure items
+
+def parseTable (s : String) : Option (List (Bytes × List Bytes)) :=
+  if s == "-" then some [] else
+  (s.splitOn ",").mapM fun e =>
+    match e.splitOn "=" with
+    | [k, v] => do
+      let k ← fromHex k
+      let v ← if v == "" then some [] else (v.splitOn ".").mapM fun x => fromHex x
+      pure (k, v)
+    | _ => none
+
+def lookupParams (tbl : List (Bytes × List Bytes)) (p : Bytes) : List Bytes :=
+  match tbl.find? (·.1 == p) with
+  | some e => e.2
+  | none => [[63, 63]]          -- "??": a path the harness never saw — shows up as M=DIFF
+
+def renderStack (l : List Route) : String :=
+  if l.isEmpty then "-" else
+  ",".intercalate (l.map fun r =>
+    let ps := if r.params.isEmpty then "-" else ".".intercalate (r.params.map toHexField)
+    s!"{toHexField r.raw}:{ps}:{r.handlers.length}")
+
+def renderTable (f : Nat → List Route) : String :=
+  ";".intercalate ((List.range nMethods).map fun k => renderStack (f k))
+
+def parseRow (s : String) : Option Row :=
+  match s.splitOn ":" with
+  | [p, ps, n] => do
+    let p ← fromHex p
+    let ps ← if ps == "-" then some [] else (ps.splitOn ".").mapM fun x => fromHex x
+    let n ← n.toNat?
+    pure ⟨p, ps, n⟩
+  | _ => none
+
+def parseStacks (s : String) : Option (List (List Row)) :=
+  (s.splitOn ";").mapM fun m => if m == "-" then some [] else (m.splitOn ",").mapM parseRow
+
+mutual
+partial def hasMount : List Item → Bool
+  | [] => false
+  | .mount _ _ _ :: _ => true
+  | .group _ _ is :: t => hasMount is || hasMount t
+  | _ :: t => hasMount t
+end
+
+partial def mountTags (depthM : Nat) (inGroup : Bool) : List Item → List String
+  | [] => []
+  | .mount p _ sub :: t =>
+    (if depthM > 0 then ["nested"] else []) ++ (if inGroup then ["from-group"] else []) ++
+    (if p.contains 58 then ["param-prefix"] else []) ++ (if p.contains 92 then ["escaped-prefix"] else []) ++
+    (if p != toLower p then ["upper-prefix"] else []) ++
+    (if trimRight p 47 == [] then ["root-prefix"] else []) ++
+    mountTags (depthM + 1) false sub ++ mountTags depthM inGroup t
+  | .group _ _ is :: t => mountTags depthM true is ++ mountTags depthM inGroup t
+  | _ :: t => mountTags depthM inGroup t
+
+def trailInvOk (tbl : List (Bytes × List Bytes)) : Bool :=
+  tbl.all fun (p, ps) => match tbl.find? (·.1 == p ++ [47]) with
+    | some e => e.2 == ps
+    | none => true
+
+def handleCase (f : List String) : Except String Verdict := do
+  match f with
+  | [id, cfgS, tree, ptable, reqs, stackM, stackG, resM, resG] =>
+    let cfg ← match cfgS.toList with
+      | [a, b] => match flag a, flag b with
+        | some cs, some st => pure (Cfg.mk cs st)
+        | _, _ => throw "outside-domain: cfg"
+      | _ => throw "outside-domain: cfg"
+    let items ← parseTree tree
+    let some tbl := parseTable ptable | throw "outside-domain: ptable"
+    let po := lookupParams tbl
+    let implObs := stackM ++ "#" ++ stackG
+    let fm := flatten cfg po items
+    let fg := flattenSpec cfg po items
+    let modelObs := if trailInvOk tbl then renderTable fm ++ "#" ++ renderTable fg
+                    else "assumption-broken: Params differ between a path and path+'/'"
+    let rm := if resM == "-" then [] else resM.splitOn ","
+    let rg := if resG == "-" then [] else resG.splitOn ","
+    let nreq := if reqs == "-" then 0 else (reqs.splitOn ",").length
+    if rm.length != nreq || rg.length != nreq then throw "outside-domain: answers do not line up with requests"
+    let spec : Option String := match parseStacks stackM, parseStacks stackG with
+      | some tm, some tg => specViolation cfg tm tg rm rg
+      | _, _ => some "unparsable-observation"
+    let k1 := Known.K1 cfg items
+    let known := if k1 then some "K1" else none
+    let mounted := hasMount items
+    let hit := rm.any fun r => !(r.startsWith "|")
+    let tags := (if mounted then ["mount"] else ["no-mount"]) ++ (mountTags 0 false items).eraseDups ++
+      (if cfg.strict then ["strict"] else []) ++ (if cfg.caseSensitive then ["case-sensitive"] else []) ++
+      (if k1 then ["k1-region"] else []) ++ (if hit then ["served"] else ["nothing-served"]) ++
+      (if mounted && hit then ["nt"] else [])
+    pure { id := id, modelObs := modelObs, implObs := implObs, spec := spec, known := known, tags := tags }
+  | _ => throw s!"outside-domain: expected 9 fields, got {f.length}"
+
+def main : IO Unit := run handleCase
